@@ -93,12 +93,22 @@ func (it Item) bytes() []byte {
 	return binary.AppendVarint(b[:], int64(it.Pos))
 }
 
+// deepKeyPos: binary.AppendVarint(key, int64(pos)) is one byte up to position 63, two bytes from 64.
+var deepKeyPos = []int{62, 63, 64, 65}
+
 func universeItems() []Item {
 	var out []Item
 	for i := range addrU {
 		out = append(out, Item{-1, i})
 	}
 	for p := 0; p < maxKeyPos; p++ {
+		for i := range keyU {
+			out = append(out, Item{p, i})
+		}
+	}
+	// round 6: the positions at both sides of the point where the varint of the position index that is
+	// appended to a key (core.EventsBloom, TestBloom, getCandidateBlocksForFilterInto) grows to two bytes
+	for _, p := range deepKeyPos {
 		for i := range keyU {
 			out = append(out, Item{p, i})
 		}
